@@ -98,7 +98,9 @@ def fixed_corpus():
               ['AtLeastKInARow', 2, 'A', None], ['ExactlyKInARow', 2, 'A', 'a1'], ['ExactlyKInARow', 1, 'A', 'a0'],
               ['ExactlyK', 2, 'C', 'c0'], ['ExactlyK', 0, 'C', 'c1'], ['Pin', 0, 'A', 'a1'], ['Pin', -2, 'B', 'b0'],
               ['Pin', 7, 'A', 'a0'], ['Exclude', 'C', 'c1'], ['MinimumTrials', 6], ['MinimumTrials', 7],
-              ['AtMostKInARow', 5, 'A', 'a0'], ['ExactlyK', 9, 'C', 'c0'], ['AtLeastKInARow', 3, 'C', 'c0']):
+              ['AtMostKInARow', 5, 'A', 'a0'], ['ExactlyK', 9, 'C', 'c0'], ['AtLeastKInARow', 3, 'C', 'c0'],
+              ['AtLeastKInARow', 1, 'C', 'c0'], ['AtLeastKInARow', 1, 'C', None], ['ExactlyKInARow', 1, 'C', 'c0'],
+              ['AtMostKInARow', 1, 'C', None], ['ExactlyK', 1, 'C', None], ['AtLeastKInARow', 1, 'A', 'a0']):
         add(D([A2, B2, C2], cross('ABC', 'AB', [c])))
     add(D([A2, B2], cross('AB', 'AB', [['AtLeastKInARow', 4, 'A', 'a1']])))
     add(D([A2, B2], cross('AB', 'AB', [['AtLeastKInARow', 5, 'A', 'a1']])))
